@@ -191,9 +191,23 @@ def new_charge():
     return Charge(mk.geometry("ccd", ROWS, COLS, pixel_vert_size=PV, pixel_horz_size=PH))
 
 
-def add_clusters(charge, rows):
+def add_clusters(charge, rows, as_frame=False):
     k = len(rows)
     z = np.zeros(k)
+    if as_frame:
+        # the clusters handed over as a DataFrame whose columns are in another order (only the SET of columns is part
+        # of the interface): e.g. a table that went through a CSV file
+        from pyxel.data_structure import Charge
+
+        df = Charge.create_charges(particle_type="e",
+                                   particles_per_cluster=np.array([r[0] for r in rows], dtype=float),
+                                   init_energy=z.copy(),
+                                   init_ver_position=np.array([r[1] for r in rows], dtype=float),
+                                   init_hor_position=np.array([r[2] for r in rows], dtype=float),
+                                   init_z_position=z.copy(), init_ver_velocity=z.copy(), init_hor_velocity=z.copy(),
+                                   init_z_velocity=z.copy())
+        charge.add_charge_dataframe(df[list(df.columns[::-1])])
+        return
     charge.add_charge(particle_type="e",
                       particles_per_cluster=np.array([r[0] for r in rows], dtype=float),
                       init_energy=z.copy(),
@@ -330,9 +344,12 @@ class Model:
                 return frame_rows(charge.frame)
             return np.array(charge.to_xarray().values, dtype=float, copy=True)
         if name == "arr":
-            charge.add_charge_array(make_array(op[1]))
+            a = make_array(op[1])
+            charge.add_charge_array(a)
+            a[...] = 777.0          # the caller re-uses its work buffer: the stored charge must not follow
         elif name == "cl":
-            add_clusters(charge, self.cluster_rows(op))
+            # single "n7" clusters arrive as a DataFrame with reversed column order, everything else through add_charge
+            add_clusters(charge, self.cluster_rows(op), as_frame=(len(op[1]) == 1 and op[1][0][0] == "n7"))
         elif name == "empty":
             charge.empty()
         elif name == "rm":
